@@ -89,8 +89,12 @@ FPlaced(j) == {<<j, H("a"), P(Var("i"))>>, <<H("a"), P(Var("i")), j, H("b")>>,
                <<H("a"), If(<<Br(IIsTwo, <<H("!"), j>>)>>, NoElse, 1), P(Var("i"))>>}
 ForLoops == {<<H("<"), For(Assign("i", IntL(h.i), 1), h.c, h.p, <<H("["), P(Var("i")), H("]")>>, els, 1), H(">")>> :
                 h \in ForHeads, els \in {NoElse, <<H("[never]")>>}}
-       \cup {<<H("<"), For(Assign("i", IntL(h.i), 1), h.c, h.p, b, NoElse, 1), H(">")>> :
-                h \in ForHeads, b \in UNION {FPlaced(j) : j \in FJumps}}
+       \cup {<<H("<"), For(Assign("i", IntL(h.i), 1), h.c, h.p, b, els, 1), H(">")>> :
+                h \in ForHeads, b \in UNION {FPlaced(j) : j \in FJumps}, els \in {NoElse, <<H("[never]")>>}}
+       \* passes that emit nothing: the @else body belongs to "condition false at entry" only
+       \cup {<<H("<"), For(Assign("i", IntL(0), 1), Bin("<", Var("i"), IntL(3)), Post("++", Var("i")), b, <<H("[never]")>>, 1), H(">")>> :
+                b \in {<<Continue(1), H("x")>>, <<Break(1)>>, <<ContinueIf(BoolL(TRUE), 1)>>, <<If(<<Br(BoolL(TRUE), <<Break(1)>>)>>, NoElse, 1)>>,
+                        <<Assign("q", Var("i"), 1)>>, <<>>}}
 \* nesting: each loop sees its own loop object, the outer one is restored; jumps act on the innermost loop;
 \* a jump in an inner loop's @else body acts on the loop around it
 InnerEach(j) == Each("w", ArrL(<<IntL(7), IntL(8)>>),
@@ -98,11 +102,18 @@ InnerEach(j) == Each("w", ArrL(<<IntL(7), IntL(8)>>),
 InnerFor(j) == For(Assign("k", IntL(0), 1), Bin("<", Var("k"), IntL(2)), Post("++", Var("k")),
                    <<H("["), P(Var("k")), j, H("]")>>, NoElse, 1)
 InnerElse(j) == Each("w", ArrL(<<>>), <<H("never")>>, <<H("E"), j, H("F")>>, 1)
-NJumps == {Html("", 1), Break(1), Continue(1), BreakIf(Bin("==", V, IntL(2)), 1), ContinueIf(Bin("==", V, IntL(1)), 1)}
+NJumps == {Html("", 1), Break(1), Continue(1), BreakIf(Bin("==", V, IntL(2)), 1), ContinueIf(Bin("==", V, IntL(1)), 1),
+           If(<<Br(Bin("==", V, IntL(2)), <<H("!"), Break(1)>>)>>, <<H("-")>>, 1), If(<<Br(Bin("<", V, IntL(2)), <<H("lo")>>)>>, <<Continue(1)>>, 1)}
 Nested == {<<Each("v", Var("ar"), <<H("("), P(V), P(LoopF("iter")), inner, P(LoopF("iter")), H(")")>>, NoElse, 1)>> :
               inner \in {InnerEach(j) : j \in NJumps} \cup {InnerFor(j) : j \in NJumps} \cup {InnerElse(j) : j \in NJumps}}
       \cup {<<For(Assign("v", IntL(1), 1), Bin("<=", V, IntL(3)), Post("++", V), <<H("("), P(V), inner, H(")")>>, NoElse, 1)>> :
               inner \in {InnerEach(j) : j \in NJumps} \cup {InnerFor(j) : j \in NJumps} \cup {InnerElse(j) : j \in NJumps}}
+\* a jump in the OUTER loop after an inner loop, and three levels
+Nested3 == {<<Each("v", Var("ar"), <<H("("), InnerEach(Html("", 1)), j, P(V), H(")")>>, NoElse, 1)>> : j \in NJumps}
+      \cup {<<Each("v", Var("ar"), <<H("("), P(LoopF("index")), Each("w", ArrL(<<IntL(7), IntL(8)>>),
+                      <<H("["), P(LoopF("index")), For(Assign("k", IntL(0), 1), Bin("<", Var("k"), IntL(2)), Post("++", Var("k")),
+                                                     <<H("<"), P(Var("k")), j, P(Var("w")), H(">")>>, NoElse, 1), P(LoopF("index")), H("]")>>, NoElse, 1),
+                      P(LoopF("index")), H(")")>>, NoElse, 1)>> : j \in {Html("", 1), Break(1), Continue(1), BreakIf(Bin("==", Var("w"), IntL(8)), 1)}}
 \* iterating a non-array is an error (C03)
 NonArrays == {<<H("a"), Each("v", e, <<H("x")>>, els, 1), H("z")>> :
                 e \in {IntL(1), StrL("ab"), NilL, BoolL(TRUE), FloatL(1, 1), ObjL(<<>>), Var("ti"), Var("ts"), Var("nn"), Var("eo")},
@@ -166,12 +177,14 @@ Cases ==
   CASE Family = "c02empty" -> {[p |-> p, d |-> CondData, tags |-> <<"c02empty">>] : p \in EmptyBodies}
     [] Family = "c02chains" -> {[p |-> Ctx(s, c), d |-> CondData, tags |-> <<"c02chains", c>>] :
                                   s \in Chain1(CondsAll) \cup Chain2(CondsSmall), c \in {"top", "else", "each"}}
+    [] Family = "c02chains3q" -> {[p |-> Ctx(s, c), d |-> CondData, tags |-> <<"c02chains3", c>>] :
+                                  s \in Chain3(CondsSmall), c \in {"then", "deep", "for", "elseif"}}
     [] Family = "c02chains3" -> {[p |-> Ctx(s, c), d |-> CondData, tags |-> <<"c02chains3", c>>] :
                                   s \in Chain3(CondsSmall) \cup Chain2(CondsAll), c \in Ctxs}
     [] Family = "c02truth" -> {[p |-> p, d |-> CondData, tags |-> <<"c02truth">>] : p \in UNION {TruthProbe(c) : c \in CondsAll}}
     [] Family = "c03each" -> {[p |-> p, d |-> CondData, tags |-> <<"c03each">>] : p \in EachLoops \cup NonArrays}
     [] Family = "c03for" -> {[p |-> p, d |-> CondData, tags |-> <<"c03for">>] : p \in ForLoops}
-    [] Family = "c03nested" -> {[p |-> p, d |-> CondData, tags |-> <<"c03nested">>] : p \in Nested}
+    [] Family = "c03nested" -> {[p |-> p, d |-> CondData, tags |-> <<"c03nested">>] : p \in Nested \cup Nested3}
     [] Family = "c04scopes" -> {[p |-> c.p, d |-> c.d, tags |-> <<"c04scopes">>] : c \in ScopeProgs}
     [] Family = "c04scopesall" -> {[p |-> c.p, d |-> c.d, tags |-> <<"c04scopes">>] : c \in ScopeProgsAll}
     [] Family = "c04loop" -> {[p |-> c.p, d |-> c.d, tags |-> <<"c04loop">>] : c \in LoopProgs}
